@@ -46,10 +46,11 @@ def audit(name, all_checks, tier, configs):
         demo_crate = meta.get("demo_crate", "chess")
         demo_dst = os.path.join(wt, demo_crate, "tests", "demo_seed.rs")
         pkg = "owlchess" if demo_crate == "chess" else "owlchess_base"
+        rel = ["--release"] if meta.get("demo_release") else []
         if os.path.exists(demo):
             os.makedirs(os.path.dirname(demo_dst), exist_ok=True)
             shutil.copy(demo, demo_dst)
-            rc, out = sh(["cargo", "test", "--offline", "-p", pkg, "--test", "demo_seed"], cwd=wt, env=env, timeout=1800)
+            rc, out = sh(["cargo", "test", "--offline"] + rel + ["-p", pkg, "--test", "demo_seed"], cwd=wt, env=env, timeout=1800)
             res["demo_passes_on_clean_tree"] = rc == 0
             os.remove(demo_dst)
         rc, out = sh(["git", "apply", os.path.join(sdir, "patch.diff")], cwd=wt)
@@ -62,7 +63,7 @@ def audit(name, all_checks, tier, configs):
             res["repo_tests_tail"] = out[-1500:]
         if os.path.exists(demo):
             shutil.copy(demo, demo_dst)
-            rc, out = sh(["cargo", "test", "--offline", "-p", pkg, "--test", "demo_seed"], cwd=wt, env=env, timeout=1800)
+            rc, out = sh(["cargo", "test", "--offline"] + rel + ["-p", pkg, "--test", "demo_seed"], cwd=wt, env=env, timeout=1800)
             res["demo_fails_with_patch"] = rc != 0
             os.remove(demo_dst)
         shutil.rmtree(os.path.join(wt, "target"), ignore_errors=True)
